@@ -33,9 +33,14 @@ EXHAUSTIVE_NOTE = "core: each gate type x fan-in 1..4 x both styles as single-ga
 EXAMPLES = {"quick": 350, "thorough": 8000}
 
 VNAMES = [n for n in S.BENIGN if n not in ("buf", "and", "or", "xor", "not", "nand", "nor", "xnor", "input", "output", "wire", "assign", "module", "endmodule")]
-HELPERLIKE = ["not_a", "not_b", "and_a_b", "and_b_a", "or_a_b", "xor_a_b", "xnor_a_b", "and_a_c", "or_b_c", "not_a_0",
-              "and_a_b_0", "and_and_a_b_c", "xor_xor_a_b_c", "or_or_a_b_c", "and_c_and_a_b", "not_and_a_b", "mux_o_a_b_c",
-              "not_xor_a_b", "not_or_a_b", "or_a_b_0", "xor_a_b_0", "and_a_b_c", "g_0", "g_1"]
+HELPERLIKE = []
+for _op in ("and", "or", "xor"):
+    for _x in "abc":
+        for _y in "abc":
+            if _x != _y:
+                HELPERLIKE += [f"{_op}_{_x}_{_y}", f"{_op}_{_x}_{_y}_0"]
+HELPERLIKE += ["not_a", "not_b", "not_a_0", "and_and_a_b_c", "xor_xor_a_b_c", "or_or_a_b_c", "and_c_and_a_b", "not_and_a_b",
+               "mux_o_a_b_c", "not_xor_a_b", "not_or_a_b", "and_a_b_c", "g_0", "g_1"]
 ESC = S.ESCAPED + ["\\g_0", "\\and", "\\1'b0", "\\a&b", "\\~n", "\\assign"]
 
 
@@ -77,13 +82,39 @@ def core(ctx):
 def _case(draw, ctx):
     esc = draw(st.integers(0, 2)) == 0
     pools = (VNAMES, ESC) if esc else (VNAMES,)
+    dense = False
     if draw(st.integers(0, 3)) == 0:
         # nets named like the gates the reader synthesises for assign expressions
-        pools = (["a", "b", "c", "d"], HELPERLIKE)
-    spec = draw(S.circuit_spec(min_inputs=0, max_inputs=4, min_gates=1, max_gates=9, max_fanin=5, pools=pools,
+        pools = (["a", "b", "c"], HELPERLIKE)
+        dense = True
+    spec = draw(S.circuit_spec(min_inputs=3 if dense else 0, max_inputs=3 if dense else 4, min_gates=4 if dense else 1,
+                               max_gates=12 if dense else 9, max_fanin=5, pools=pools,
+                               types=(["and", "nand", "or", "nor", "xor", "xnor"] if dense else S.ALL_GATES),
+                               min_fanin_nary=2 if dense else 1, consts=not dense, shuffle=not dense,
                                const_types=("0", "1", "0", "1", "x") if draw(st.integers(0, 5)) == 0 else ("0", "1"),
                                max_insts=draw(st.sampled_from([0, 0, 1, 2])), unconnected_pins=draw(st.booleans()),
                                io_outputs=True, name=draw(st.sampled_from(["c", "top", "my_circuit", "C17"]))))
+    if dense:
+        # aim: a net named like the gate the reader will synthesise for the first two operands of a
+        # >= 3-input gate, and another one named like that name's first uniquified form
+        fam = {"and": "and", "nand": "and", "or": "or", "nor": "or", "xor": "xor", "xnor": "xor"}
+        big = [x for x in spec["nodes"] if x[1] in fam and len(x[2]) >= 3]
+        others = [x for x in spec["nodes"] if x[1] in fam]
+        if big and len(others) >= 3:
+            gte = draw(st.sampled_from(big))
+            xy = draw(st.permutations(gte[2]))[:2]
+            base = f"{fam[gte[1]]}_{xy[0]}_{xy[1]}"
+            victims = [x for x in others if x is not gte and x[0] not in gte[2]]
+            taken = {x[0] for x in spec["nodes"]}
+            ren = {}
+            for v, newname in zip(victims[:2], [base, base + "_0"]):
+                if newname not in taken:
+                    ren[v[0]] = newname
+            for x in spec["nodes"]:
+                x[0] = ren.get(x[0], x[0])
+                x[2] = [ren.get(f, f) for f in x[2]]
+            for inst in spec["insts"]:
+                inst[2] = {k: ren.get(v, v) for k, v in inst[2].items()}
     route = draw(st.sampled_from(["string", "string", "string", "file_suffix", "file_fmt", "file_infer", "bad_suffix", "bad_fmt"]))
     tables = draw(st.lists(st.integers(0, (1 << 64) - 1), min_size=16, max_size=16))
     return {"spec": spec, "beh": draw(st.booleans()), "route": route, "tables": tables}
